@@ -110,6 +110,36 @@ pub fn run(_tier: &str) -> Report {
         if verify_json(&keys, &o3).is_ok() {
             fail(&mut f_roundtrip, json!({"event": name, "why": "tampered content still verifies"}));
         }
+        // a signature or a public key with extra bytes appended is not the signature / key: verification fails
+        {
+            let mut o5 = obj(ev.clone());
+            sign_json("a.org", &a1, &mut o5).unwrap();
+            let mut k5 = PublicKeyMap::new();
+            add_key(&mut k5, "a.org", &a1);
+            let mut long_sig = o5.clone();
+            if let Some(CanonicalJsonValue::Object(sigs)) = long_sig.get_mut("signatures") {
+                if let Some(CanonicalJsonValue::Object(set)) = sigs.get_mut("a.org") {
+                    if let Some(CanonicalJsonValue::String(sv)) = set.get("ed25519:1").cloned() {
+                        let mut bytes = Base64::<ruma_common::serde::base64::Standard, Vec<u8>>::parse(&sv).map(|b| b.into_inner()).unwrap_or_default();
+                        bytes.push(0);
+                        set.insert("ed25519:1".to_owned(), CanonicalJsonValue::String(Base64::<ruma_common::serde::base64::Standard, _>::new(bytes).encode()));
+                    }
+                }
+            }
+            if verify_json(&k5, &o5).is_err() {
+                fail(&mut f_roundtrip, json!({"event": name, "why": "sign then verify failed (single signer)"}));
+            }
+            if verify_json(&k5, &long_sig).is_ok() {
+                fail(&mut f_roundtrip, json!({"event": name, "why": "a signature with an extra byte appended still verifies"}));
+            }
+            let mut long_key = PublicKeyMap::new();
+            let mut kb = a1.public_key().to_vec();
+            kb.push(0);
+            long_key.entry("a.org".to_owned()).or_default().insert("ed25519:1".to_owned(), Base64::new(kb));
+            if verify_json(&long_key, &o5).is_ok() {
+                fail(&mut f_roundtrip, json!({"event": name, "why": "a public key with an extra byte appended is accepted"}));
+            }
+        }
         // signing again with the same entity and key after the content changed (or over a bogus value under that key id)
         // stores the signature of the CURRENT content: the stored value is exactly sign(canonical JSON)
         for stale in [None, Some("AAAA")] {
@@ -218,6 +248,23 @@ pub fn run(_tier: &str) -> Report {
                     if k != "sha256" && h1.get(k).and_then(|x| x.as_str()) != v.as_str() {
                         fail(&mut f_event_all, json!({"case": d("an entry of `hashes` other than sha256 was lost"), "entry": k}));
                     }
+                }
+            }
+            // several servers hash and sign one after the other: every signature stays and verifies (restricted joins and
+            // room versions 1-2 need two signers)
+            {
+                let mut o3 = obj(ev.clone());
+                if rules.signatures.check_event_id_server {
+                    o3.insert("event_id".to_owned(), CanonicalJsonValue::String("$e:a.org".to_owned()));
+                }
+                hash_and_sign_event("b.org", &b1, &mut o3, &rules.redaction).unwrap();
+                hash_and_sign_event("a.org", &a1, &mut o3, &rules.redaction).unwrap();
+                let mut k3 = PublicKeyMap::new();
+                add_key(&mut k3, "a.org", &a1);
+                add_key(&mut k3, "b.org", &b1);
+                let both = o3.get("signatures").and_then(|s| s.as_object()).map(|s| s.contains_key("a.org") && s.contains_key("b.org")).unwrap_or(false);
+                if !both || !matches!(verify_event(&k3, &o3, &rules), Ok(Verified::All)) || verify_json(&k3, &redact(o3.clone(), &rules.redaction, None).unwrap()).is_err() {
+                    fail(&mut f_event_all, d("after two servers hashed and signed in turn, a signature is missing or does not verify"));
                 }
             }
             // hashing and signing again after an edit gives All again
